@@ -375,11 +375,11 @@ func cmdReplay(args []string) int {
 				}
 				return -1
 			}
-			_, tr, v := rn.runPath(ch, *seed+int64(i%7), "cover", i%5000 == 0)
+			_, tr, v := rn.runPath(ch, *seed+int64(i%7), "cover", i%1000 == 0)
 			if v != nil {
 				rn.report(v)
 			}
-			if tr != nil && len(tr) > 1 {
+			if len(tr) > 0 {
 				rn.mu.Lock()
 				if len(rn.samples) < 3 {
 					rn.samples = append(rn.samples, tr)
